@@ -29,7 +29,7 @@ def run(env, res):
     directed = [('c01-straight', fo.c01_family, env.n(400, 100000)), ('c01-random-straight', fo.c01_random_straight, env.n(300, 6000)),
                 ('c01-malformed-failure-group', fo.c01_malformed_failure_family, env.n(120, 100000)),
                 ('c01-malformed-group', fo.c01_malformed_group_family, env.n(60, 100000))]
-    flowcheck.run_streams(env, res, directed, env.n(400, 15000), weights={'fail': 5, 'stop': 1, 'stopstepgroup': 1, 'stoppipeline': 1},
+    flowcheck.run_streams(env, res, directed, env.n(400, 100000), weights={'fail': 5, 'stop': 1, 'stopstepgroup': 1, 'stoppipeline': 1},
                           random_monitor=flowcheck.monitor_all)
 
 
